@@ -216,5 +216,94 @@ def run_c19(ctx):
     ]
 
 
+LOCKCFG = """SPECIFICATION {spec}
+CONSTANTS
+  Procs = {procs}
+  MaxOps = {maxops}
+  Ids = {{"a"}}
+  EvIds = {{"e1"}}
+  Pool <- MCPoolC
+  InitRegs <- {inits}
+  SelKeys <- MCSelKeys
+  EvVals <- MCEvVals
+  Dev = {dev}
+INVARIANTS
+  TypeOK RegistryExact NoDup AtMostOncePerPublish CleanupAtMostOnce CleanupIffRemoved
+  FailedOnlyAfterFailure MutualExclusion LockOwnerInside NoDeadlock
+PROPERTIES
+  RegistrySpec ReachesSeen NoDeliveryAfterUnsubReturned NoDeliveryAfterRemoval RemovalPermanent {live}
+CHECK_DEADLOCK FALSE
+{view}
+"""
+
+
+def lockcfg(procs, maxops, dev="{}", inits="MCInitC", live=False, view=True):
+    return LOCKCFG.format(spec="LFairSpec" if live else "LSpec",
+                          procs="{" + ", ".join(str(p) for p in procs) + "}", maxops=maxops, dev=dev, inits=inits,
+                          live="AllReturn" if live else "", view="VIEW LockView" if view else "")
+
+
 def run_c20(ctx):
-    raise vlib.MachineryError("not built yet")
+    quick = ctx.tier == "quick"
+    ctx.rule = ("(1) RegistryLock.tla (mutex-level transcription of root.go) model-checked: invariants, refinement of "
+                "Registry.tla, real-time properties, deadlock, and under fairness termination; (2) every behaviour of "
+                "Registry.tla for 2-3 concurrent processes (all programs x all block interleavings within the bound) "
+                "replayed on the real Root through a gate scheduler at the verif points, compared block by block; "
+                "(3) Go-side enumeration of all block schedules of all small programs, recorded and judged by "
+                "RegistryTrace.tla; (4) free-running goroutines recorded in lock order and judged; (5) hook-free -race stress. "
+                "non-trivial = behaviour with at least one delivery and one removal; distinct by content hash")
+    # (1) the mutex-level model
+    res = vlib.run_tlc(ctx, "MCRegistryLock", lockcfg([1, 2], 2), timeout=900)
+    vlib.require_clean(res, "RegistryLock 2x2")
+    if not quick:
+        res = vlib.run_tlc(ctx, "MCRegistryLock", lockcfg([1, 2, 3], 1), timeout=1800)
+        vlib.require_clean(res, "RegistryLock 3x1")
+        res = vlib.run_tlc(ctx, "MCRegistryLock", lockcfg([1, 2], 1, view=False, inits="MCInitC"), timeout=1800)
+        vlib.require_clean(res, "RegistryLock 2x1 without VIEW (refinement incl. outputs)")
+        res = vlib.run_tlc(ctx, "MCRegistryLock", lockcfg([1, 2], 1, live=True, view=False), timeout=1800)
+        vlib.require_clean(res, "RegistryLock liveness")
+        res = vlib.run_tlc(ctx, "MCRegistryLock", lockcfg([1, 2, 3], 2), timeout=3000, workers=16)
+        vlib.require_clean(res, "RegistryLock 3x2")
+        # the properties are not vacuous: each named deviation of the algorithm is caught by the model
+        caught = {}
+        for dev in ("ForwardScan", "RemoveFailedByMatch", "NoPhase2Lock"):
+            r = vlib.run_tlc(ctx, "MCRegistryLock", lockcfg([1, 2], 2, dev='{"%s"}' % dev), timeout=900, count_states=False)
+            if not r.error:
+                raise vlib.MachineryError("deviation %s is not caught by RegistryLock's properties" % dev)
+            caught[dev] = r.violated or r.error
+        ctx.extra["model_mutations_caught"] = caught
+    # (2) TLC -> code, gated schedules
+    plans = [([1, 2], 1, "MCPoolA", "MCInitSome", '{"e1"}')]
+    if not quick:
+        plans += [([1, 2], 2, "MCPoolC", "MCInitC", '{"e1"}'), ([1, 2, 3], 1, "MCPoolC", "MCInitC", '{"e1"}'),
+                  ([1, 2], 1, "MCPoolB", "MCInitSome", '{"e1", "e2"}')]
+    else:
+        plans += [([1, 2, 3], 1, "MCPoolC", "MCInitEmpty", '{"e1"}')]
+    up = None
+    vecs = []
+    for procs, maxops, pool, inits, evids in plans:
+        vecs, uni = model_and_vectors(ctx, procs, maxops, pool, inits, evids=evids, timeout=3000)
+        rep, up1 = replay(ctx, vecs, uni, "sched-replay-%s-%dx%d" % (pool, len(procs), maxops))
+        up = up or up1
+    # (3) Go-side exhaustive schedules, judged by TLC
+    record_and_judge(ctx, up, "sched", ["-procs", "2", "-ops", "1"], "go-sched-2x1", timeout=1800)
+    if not quick:
+        record_and_judge(ctx, up, "sched", ["-procs", "3", "-ops", "1", "-sample", "400"], "go-sched-3x1", timeout=3000)
+        record_and_judge(ctx, up, "sched", ["-procs", "2", "-ops", "2", "-sample", "150"], "go-sched-2x2", timeout=3000)
+    # (4) free-running, recorded in lock order
+    record_and_judge(ctx, up, "stress", ["-iters", "40" if quick else "400", "-goroutines", "4", "-ops", "3"],
+                     "stress", timeout=1800)
+    # (5) hook-free race-detector stress
+    rep = vlib.run_harness_json(ctx, "registry", ["race", "-universe", up, "-iters", "60" if quick else "1500",
+                                                  "-goroutines", "8" if quick else "16", "-ops", "6"],
+                                timeout=3000, race=True)
+    if rep["_rc"] == 66 or "DATA RACE" in rep["_stderr"]:
+        ctx.violations.append({"from": "race", "what": "data race reported by the Go race detector", "case": rep["_stderr"][-3000:]})
+    absorb(ctx, rep, "race")
+    if not quick:
+        negative_controls(ctx, up, [v for v in vecs])
+    ctx.assumptions += [
+        "block interleavings are enumerated at the verif yield points; within a critical section the code runs alone (the lock is checked to be held at every in-lock point)",
+        "the race detector is a dynamic tool: absence of a report is evidence for the explored schedules only",
+        "bounded: 2-3 processes with 1-2 operations each for exhaustive parts",
+    ]
